@@ -1,0 +1,37 @@
+//go:build verif
+
+// Machine-checked contracts for package zitiql (hand-written part only). Comments only.
+package zitiql
+
+// The generated parser's entry point: by the time it runs, the parser reports to somebody.
+//@ func (*ZitiQlParser).Start_
+//@   trusted generated ANTLR parser; only the listener precondition is stated
+//@   requires[parser-listens] lsnAny[p.BaseParser.BaseRecognizer]
+//@   modifies *
+
+// Errors are listened to (C10): the caller's listener is registered on the lexer and on the parser
+// before parsing starts, so text that is not a sentence of the grammar is reported, not repaired.
+//@ func parse
+//@   props C10
+//@   nosafety
+//@   requires el != nil
+//@   modifies *
+//@   lensures[lexer-listens] lsn[lexer.BaseLexer.BaseRecognizer][el]
+//@   lensures[parser-listens] lsn[p.BaseParser.BaseRecognizer][el]
+
+//@ func newErrorListener
+//@   props C10
+//@   pure
+//@   ensures result != nil && len(result.Errors) == 0
+//@ func ParseWithDebug
+//@   props C10
+//@   modifies *
+//@ func Parse
+//@   props C10
+//@   modifies *
+
+// an offending symbol that is not a token (the lexer passes nil) must not be dereferenced
+//@ func (*ErrorListener).SyntaxError
+//@   props C10
+//@   modifies el.Errors
+//@   ensures[recorded] len(el.Errors) == old(len(el.Errors)) + 1
